@@ -29,7 +29,7 @@ func fnShort(fn *ssa.Function) string {
 
 func (g *Gen) calleeContract(cc *ssa.CallCommon) *Contract {
 	if cc.IsInvoke() {
-		return g.world.contractForMethod(cc)
+		return g.world.contractForMethod(cc, g.fn)
 	}
 	switch f := cc.Value.(type) {
 	case *ssa.Function:
@@ -95,6 +95,29 @@ func (g *Gen) run() (err error) {
 		g.params[fv.Name()] = g.lazyCell(Val{S: n, Sort: sort, G: fv.Type()})
 		g.paramSMT = append(g.paramSMT, n)
 	}
+	// ghost names bound to results of calls through function-typed parameters
+	if g.c != nil {
+		for pname, dc := range g.c.DynCallee {
+			for gname, rname := range dc.Bind {
+				for _, p := range fn.Params {
+					sig, ok := p.Type().Underlying().(*types.Signature)
+					if p.Name() != pname || !ok {
+						continue
+					}
+					for i := 0; i < sig.Results().Len() && i < len(dc.ResultN); i++ {
+						if dc.ResultN[i] == rname {
+							t := sig.Results().At(i).Type()
+							sort := g.m.sortOf(t)
+							n := "ghost_" + san(gname)
+							g.emit("(declare-const " + n + " " + sort + ")")
+							g.emit("(assert " + g.wf(n, t, alloc0) + ")")
+							g.params[gname] = Val{S: n, Sort: sort, G: t}
+						}
+					}
+				}
+			}
+		}
+	}
 	// lemmas/axioms this function uses
 	g.emitUses(st)
 	// preconditions
@@ -124,6 +147,27 @@ func (g *Gen) run() (err error) {
 		for _, s := range b.Succs {
 			if g.backEdge[[2]int{b.Index, s.Index}] {
 				g.backEdgeObls(b, g.loops[s])
+			}
+		}
+	}
+	// vacuity guard: every call-site clause of the contract must have found its call
+	if g.c != nil {
+		for _, cs := range g.c.Calls {
+			if !cs.Matched {
+				g.obls = append(g.obls, &Obl{Name: fmt.Sprintf("%s/callsite/%s#%d/unmatched", g.key, cs.Callee, cs.K), Fn: g.key, Kind: "vacuity", Verdict: "vacuous",
+					Src: "the contract has a call-site clause for a call that does not occur in the function", Output: "no call of " + cs.Callee + " with that ordinal", gen: g})
+			}
+		}
+		for k := range g.c.Loops {
+			found := false
+			for _, li := range g.loops {
+				if li.ord == k {
+					found = true
+				}
+			}
+			if !found {
+				g.obls = append(g.obls, &Obl{Name: fmt.Sprintf("%s/loop%d/unmatched", g.key, k), Fn: g.key, Kind: "vacuity", Verdict: "vacuous",
+					Src: "the contract has clauses for a loop that does not exist", Output: fmt.Sprintf("function has %d loops", len(g.loops)), gen: g})
 			}
 		}
 	}
@@ -341,7 +385,7 @@ func (g *Gen) enterLoop(li *loopInfo) *State {
 		vars := g.scopeAt(b, p, est)
 		env := g.env(est, vars)
 		for j, inv := range li.spec.Inv {
-			g.assert(est, fmt.Sprintf("loop%d", li.ord), fmt.Sprintf("inv%d/entry", j+1), env.tr(inv).S, li.spec.InvSrc[j], li.minPos)
+			g.assertExpr(est, env, fmt.Sprintf("loop%d", li.ord), fmt.Sprintf("inv%d/entry", j+1), inv, li.spec.InvSrc[j], li.minPos)
 		}
 	}
 	// state at the header: merge of entries, then havoc what the loop changes
@@ -438,7 +482,7 @@ func (g *Gen) backEdgeObls(p *ssa.BasicBlock, li *loopInfo) {
 	vars := g.scopeAt(li.head, p, est)
 	env := g.env(est, vars)
 	for j, inv := range li.spec.Inv {
-		g.assert(est, fmt.Sprintf("loop%d", li.ord), fmt.Sprintf("inv%d/preserved", j+1), env.tr(inv).S, li.spec.InvSrc[j], li.minPos)
+		g.assertExpr(est, env, fmt.Sprintf("loop%d", li.ord), fmt.Sprintf("inv%d/preserved", j+1), inv, li.spec.InvSrc[j], li.minPos)
 	}
 	if li.spec.Dec != nil {
 		d := env.tr(li.spec.Dec).S
